@@ -14,7 +14,7 @@ R = os.path.join(scratch, "repo")
 os.makedirs(scratch, exist_ok=True)
 if not os.path.exists(R):
     subprocess.run(["git", "-C", "/repo", "worktree", "add", "--detach", R, "HEAD"], check=True, capture_output=True)
-subprocess.run(["rsync", "-a", "--delete", "--exclude", "_build", "--exclude", ".git", "--exclude", "evidence", "/verif/", V + "/"], check=True)
+subprocess.run(["rsync", "-a", "--delete", "--exclude", "_build", "--exclude", ".git", "--exclude", "evidence", os.environ.get("VERIF_SRC", "/verif") + "/", V + "/"], check=True)
 os.makedirs(os.path.join(V, "evidence"), exist_ok=True)
 ct = os.path.join(V, "harness", "Cargo.toml")
 _t = open(ct).read().replace("/repo/crates/sas-lexer", R + "/crates/sas-lexer")
